@@ -155,14 +155,39 @@ pub fn parse_term(s: &J) -> (String, Result<Schema, String>) {
 // executing one read
 // ---------------------------------------------------------------------------------------------
 fn clip(s: String) -> String {
-    if s.len() > 160 { s.chars().take(160).collect() } else { s }
+    if s.len() > 100 { s.chars().take(100).collect() } else { s }
 }
 
-pub fn outcome(r: Result<Result<Value, String>, String>) -> (J, Option<Value>) {
+/// Result terms of one case are stored once each in `terms` (two results share an index iff their
+/// serialised terms are byte-identical: a lossless compression, not a comparison of values).
+pub struct Terms {
+    pub list: Vec<J>,
+    keys: Vec<String>,
+}
+impl Terms {
+    pub fn new() -> Self {
+        Terms { list: vec![], keys: vec![] }
+    }
+    /// 1-based index
+    pub fn intern(&mut self, t: J) -> usize {
+        let k = t.to_string();
+        if let Some(i) = self.keys.iter().position(|x| *x == k) {
+            return i + 1;
+        }
+        self.keys.push(k);
+        self.list.push(t);
+        self.list.len()
+    }
+}
+
+pub fn outcome(terms: &mut Terms, r: Result<Result<Value, String>, String>) -> (J, Option<Value>) {
     match r {
-        Ok(Ok(v)) => (json!({"ok":true,"panic":false,"v":value_to_vterm(&v),"err":""}), Some(v)),
-        Ok(Err(e)) => (json!({"ok":false,"panic":false,"v":none_term(),"err":clip(e)}), None),
-        Err(p) => (json!({"ok":false,"panic":true,"v":none_term(),"err":clip(p)}), None),
+        Ok(Ok(v)) => {
+            let ti = terms.intern(value_to_vterm(&v));
+            (json!({"ok":true,"panic":false,"ti":small(ti),"err":""}), Some(v))
+        }
+        Ok(Err(e)) => (json!({"ok":false,"panic":false,"ti":0,"err":clip(e)}), None),
+        Err(p) => (json!({"ok":false,"panic":true,"ti":0,"err":clip(p)}), None),
     }
 }
 
@@ -197,13 +222,13 @@ pub fn read_value_resolve(w: &Schema, r: &Schema, wire: &[u8]) -> Result<Result<
     }))
 }
 
-fn follow_up(r: &Schema, res: &Option<Value>) -> (bool, J) {
+fn follow_up(terms: &mut Terms, r: &Schema, res: &Option<Value>) -> (bool, J) {
     match res {
-        None => (false, json!({"ok":false,"panic":false,"v":none_term(),"err":"no result"})),
+        None => (false, json!({"ok":false,"panic":false,"ti":0,"err":"no result"})),
         Some(v) => {
             let valid = guarded(std::panic::AssertUnwindSafe(|| v.validate(r))).unwrap_or(false);
             let again = guarded(std::panic::AssertUnwindSafe(|| v.clone().resolve(r).map_err(|e| e.to_string())));
-            (valid, outcome(again).0)
+            (valid, outcome(terms, again).0)
         }
     }
 }
@@ -215,6 +240,7 @@ pub fn exec_case(w: &Schema, r: &Schema, v: &J) -> J {
     let wire = j_bytes(&enc["wire"]);
     let enc_ok = enc["ok"].as_bool() == Some(true);
     let mut c = json!({"v": v, "enc_ok": enc_ok});
+    let mut terms = Terms::new();
     let runs: [(&str, Result<Result<Value, String>, String>); 3] = if enc_ok {
         [
             ("dr", read_datum(w, r, &wire)),
@@ -225,12 +251,13 @@ pub fn exec_case(w: &Schema, r: &Schema, v: &J) -> J {
         [("dr", Ok(Err("not encoded".into()))), ("cr", Ok(Err("not encoded".into()))), ("vr", Ok(Err("not encoded".into())))]
     };
     for (name, res) in runs {
-        let (o, val) = outcome(res);
-        let (valid, again) = follow_up(r, &val);
+        let (o, val) = outcome(&mut terms, res);
+        let (valid, again) = follow_up(&mut terms, r, &val);
         c[name] = o;
         c[format!("{name}_valid")] = J::Bool(valid);
         c[format!("{name}_again")] = again;
     }
+    c["terms"] = J::Array(terms.list);
     c
 }
 
